@@ -35,6 +35,8 @@ func scenarioSched(c *vrun.Ctx) {
 		{"backups-then-file", [][]any{{"logging.max_backups", 5}, {"logging.file", "B.log"}}, false},
 		{"file-then-back", [][]any{{"logging.file", "B.log"}, {"logging.file", "A.log"}}, false},
 		{"rebuild-vs-log-reader", [][]any{{"logging.max_backups", 5}}, true},
+		{"backups-then-level", [][]any{{"logging.max_backups", 5}, {"logging.level", "DEBUG"}}, false},
+		{"level-then-compress-then-level", [][]any{{"logging.level", "WARN"}, {"logging.compress", false}, {"logging.level", "ERROR"}}, false},
 	}
 	dir := os.Getenv("VF_SCRATCH")
 	if dir == "" {
@@ -63,7 +65,7 @@ func scenarioSched(c *vrun.Ctx) {
 	}
 	for _, sc := range scens {
 		sc := sc
-		var want, problem string
+		var want, problem, wantLevel, gotLevel string
 		execs := 0
 		body := func() {
 			problem = ""
@@ -105,6 +107,7 @@ func scenarioSched(c *vrun.Ctx) {
 			vsched.JoinHarness()
 			vsched.Quiesce()
 			want = cfg.Logging.File.Read()
+			wantLevel, gotLevel = cfg.Logging.Level.Read().String(), logLevel.Level().String()
 			slog.Error("VF-MARKER-" + sc.name)
 			if fileLog != nil {
 				fileLog.Close()
@@ -118,6 +121,9 @@ func scenarioSched(c *vrun.Ctx) {
 				c.Cap("logging scenario stopped: " + problem)
 				c.Stop = true
 				return
+			}
+			if wantLevel != gotLevel {
+				c.Violation("C19/logging/"+sc.name+"/log-level-does-not-follow-latest-setting", "after the accepted changes logging.level is "+wantLevel+" but the logger filters at "+gotLevel, x)
 			}
 			var holders []string
 			ents, _ := os.ReadDir(filepath.Join(dir, "logs"))
